@@ -300,6 +300,24 @@ func (l *layoutCtx) decoder(pkg, name string, variants []Variant,
 					problems = append(problems, "decoded "+f+": "+m+pathSuffix(r))
 				}
 			}
+			// a decoder that reads from a stream leaves it exactly behind the item: the next item starts there
+			for k, o := range r.Path.Sinks {
+				if !strings.HasPrefix(k, "stream:") || o == nil || o.Pos == nil {
+					continue
+				}
+				total := abs.LConst(0)
+				for _, sg := range o.Segs {
+					if sg.Byte != nil {
+						total = total.Add(abs.LConst(1))
+					} else {
+						total = total.Add(sg.Len)
+					}
+				}
+				// (Segs holds what is left of the stream, Pos what was taken)
+				if !r.Path.ProveEq(total) {
+					problems = append(problems, fmt.Sprintf("the decoder consumed %s bytes of the stream and left %s bytes of the item unread: the next item would be read from the wrong offset%s", o.Pos, total, pathSuffix(r)))
+				}
+			}
 		}
 		facts := map[string]interface{}{"paths": len(res), "input": abs.SpecString(v.Spec)}
 		if len(problems) == 0 {
